@@ -37,6 +37,11 @@ class _Ret(Exception):
         self.v = v
 
 
+def _hooks_of(env):
+    return {k: env[k] for k in ("__calls__", "__values__", "__isinstance__", "__methods__", "__globals__", "__global_lookup__",
+                                "__max_iter__") if k in env}
+
+
 def call_method(func_node, self_state, args, extra=None):
     """run `func_node` (a FunctionDef) with self bound to the dict `self_state` (field name -> python value)"""
     prm = A.params(func_node)
@@ -273,6 +278,10 @@ def _stmt(st, env):
                     del base[key]
                 except (KeyError, IndexError):
                     raise Raised("KeyError")
+            elif isinstance(t, ast.Name):
+                if t.id not in env:
+                    raise Raised("UnboundLocalError")
+                del env[t.id]
             else:
                 raise AnalysisError("unsupported delete")
         return
@@ -439,6 +448,10 @@ def _ev(e, env):
     if isinstance(e, ast.Subscript):
         base = _ev(e.value, env)
         key = _ev(e.slice, env)
+        if base == "__SELF__" and isinstance(base, str):
+            if "__getitem__" in env.get("__methods__", {}):
+                return call_method(env["__methods__"]["__getitem__"], env["__self__"], [key], _hooks_of(env))
+            raise AnalysisError("miniinterp: self[...] without a __getitem__ of the model")
         try:
             return base[key]
         except (KeyError, IndexError):
@@ -554,7 +567,10 @@ def _ev(e, env):
             return _op.itemgetter(_ev(e.args[0], env))
         if d == "sorted":
             kw = {k.arg: _ev(k.value, env) for k in e.keywords}
-            return sorted(_ev(e.args[0], env), **kw)
+            try:
+                return sorted(_ev(e.args[0], env), **kw)
+            except TypeError:
+                raise Raised("TypeError")       # unorderable elements
         if isinstance(e.func, ast.Attribute) and e.func.attr in ("update", "items", "keys", "values", "append", "extend",
                                                                   "remove", "discard", "add", "sort", "copy"):
             base = _ev(e.func.value, env)
